@@ -105,7 +105,8 @@ def main(argv=None) -> int:
         print(f"[{prop}] OK tier={a.tier} rules={len(ctx.rules)} "
               f"obligations={sum(r.obligations for r in ctx.rules)} wall={time.time() - t0:.2f}s"
               + (f" selftest: {selftest['fired']}/{selftest['breaking']} breaking variants caught, "
-                 f"{selftest['silent']}/{selftest['neutral']} neutral variants silent" if selftest else ""))
+                 f"{selftest['silent']}/{selftest['neutral']} neutral variants silent"
+                 + (f" (skipped, anchor text absent: {selftest['skipped']})" if selftest.get('skipped') else "") if selftest else ""))
         return 0
     except AnalysisError as e:
         print(f"ANALYSIS-ERROR {prop}: {e}")
